@@ -192,7 +192,9 @@ func runDKGFaults(t *testing.T, rc *RunCtx) {
 		return
 	}
 	if out2.State != pb.ResponseState_SUCCEEDED {
-		rc.Violate("C13", "no-recovery-after-failed-generation", fmt.Sprintf("after %s a fault-free generation under another name failed: %s", desc, out2.Message), s.Step)
+		// Progress once faults stop is what the simulator is expected to look at, but C13 itself does not
+		// promise it: report it as inconclusive (exit 2), not as a violation of C13.
+		rc.Violate("HARNESS", "no-recovery-after-failed-generation", fmt.Sprintf("after %s a fault-free generation under another name failed: %s", desc, out2.Message), s.Step)
 		return
 	}
 	rc.Stats.Inc("recovery_generations", 1)
